@@ -7,6 +7,7 @@ import (
 	"net"
 	"os"
 	"regexp"
+	"slices"
 	"strings"
 	"time"
 
@@ -1483,19 +1484,57 @@ func redact(s *string) {
 	}
 }
 
+// clone returns a deep copy of the config. Unlike a serialization round trip
+// it cannot fail, so callers never have to fall back to the original.
+func (c *Config) clone() *Config {
+	out := *c
+
+	out.Listeners = slices.Clone(c.Listeners)
+	for i := range out.Listeners {
+		out.Listeners[i].TLS = out.Listeners[i].TLS.clone()
+	}
+	out.Peers = slices.Clone(c.Peers)
+	for i := range out.Peers {
+		out.Peers[i].TLS = out.Peers[i].TLS.clone()
+	}
+	out.SOCKS5.Auth.Users = slices.Clone(c.SOCKS5.Auth.Users)
+	out.Exit.Routes = slices.Clone(c.Exit.Routes)
+	out.Exit.DomainRoutes = slices.Clone(c.Exit.DomainRoutes)
+	out.Exit.DNS.Servers = slices.Clone(c.Exit.DNS.Servers)
+	out.HTTP.Pprof = cloneBool(c.HTTP.Pprof)
+	out.HTTP.Dashboard = cloneBool(c.HTTP.Dashboard)
+	out.HTTP.RemoteAPI = cloneBool(c.HTTP.RemoteAPI)
+	out.FileTransfer.AllowedPaths = slices.Clone(c.FileTransfer.AllowedPaths)
+	out.Shell.Whitelist = slices.Clone(c.Shell.Whitelist)
+	out.Forward.Endpoints = slices.Clone(c.Forward.Endpoints)
+	out.Forward.Listeners = slices.Clone(c.Forward.Listeners)
+
+	return &out
+}
+
+// clone returns a copy of the TLS settings that shares no pointers with t.
+func (t TLSConfig) clone() TLSConfig {
+	t.MTLS = cloneBool(t.MTLS)
+	t.Strict = cloneBool(t.Strict)
+	return t
+}
+
+// cloneBool copies an optional bool.
+func cloneBool(b *bool) *bool {
+	if b == nil {
+		return nil
+	}
+	v := *b
+	return &v
+}
+
 // Redacted returns a copy of the config with sensitive values redacted.
 // This is safe to log or display to users.
 func (c *Config) Redacted() *Config {
-	// Create a deep copy by marshaling and unmarshaling
-	data, err := yaml.Marshal(c)
-	if err != nil {
-		return c
-	}
-
-	redacted := &Config{}
-	if err := yaml.Unmarshal(data, redacted); err != nil {
-		return c
-	}
+	// Redact on a deep copy that does not depend on a YAML round trip: the
+	// round trip fails for some values (e.g. a multi-line string starting
+	// with a tab) and the original must never be returned unredacted.
+	redacted := c.clone()
 
 	// Redact global TLS key
 	redact(&redacted.TLS.Key)
